@@ -510,3 +510,22 @@ package consensus
 //@   ensures [restored] err == nil ==> (forall k int :: {rk_kind(k)} 0 <= k && k < ghost(rd_n) && ownRec(cs, k) ==> lexGE(cs.round, cs.step, rk_round(k), recStep(k)))
 //@   loop 0: invariant cs != nil && cs == old(cs) && ghost(rd_n) >= 0 && (forall k int :: {rk_kind(k)} 0 <= k && k < ghost(rd_n) && ownRec(cs, k) ==> lexGE(round, rstep, rk_round(k), recStep(k)))
 //@   loop 1: invariant cs != nil && cs == old(cs) && ghost(rd_n) >= 1
+
+// ---------------------------------------------------------------------------
+// C07: the block timestamp derived from a commit vote list is the median of the vote timestamps
+// ---------------------------------------------------------------------------
+
+//@ property C07
+// sorted_ts(bvl, n): the n vote timestamps of the list in ascending order (sort.Slice is trusted
+// to produce it: specs/sort.gospec)
+//@ func (bvl *blockCommitVoteList) Timestamp() (r)
+//@   arith int
+//@   nosafety
+//@   requires bvl != nil
+//@   modifies ghost(sorted_in), ghost(sorted_arr), ghost(sorted_n)
+//@   callpre Slice: len(as(slice_int64, x)) == len(bvl.Items) && (forall j int :: {as(slice_int64, x)[j]} 0 <= j && j < len(bvl.Items) ==> as(slice_int64, x)[j] == bvl.Items[j].Timestamp)
+//@   ensures [empty] len(bvl.Items) == 0 ==> r == 0
+//@   ensures [odd] len(bvl.Items) % 2 == 1 ==> r == ghost(sorted_arr)[len(bvl.Items) / 2]
+//@   ensures [even] len(bvl.Items) > 0 && len(bvl.Items) % 2 == 0 ==> r == (ghost(sorted_arr)[len(bvl.Items) / 2 - 1] + ghost(sorted_arr)[len(bvl.Items) / 2]) / 2
+//@   ensures [sorted_input] len(bvl.Items) > 0 ==> ghost(sorted_n) == len(bvl.Items) && (forall j int :: {bvl.Items[j]} 0 <= j && j < len(bvl.Items) ==> ghost(sorted_in)[j] == bvl.Items[j].Timestamp)
+//@   loop 0: invariant -1 <= rangeindex && rangeindex < len(ts) && len(ts) == len(bvl.Items) && l == len(ts) && off(ts) == 0 && fresh(ts) && (forall j int :: {ts[j]} 0 <= j && j <= rangeindex ==> ts[j] == bvl.Items[j].Timestamp)
